@@ -346,6 +346,11 @@ class C09(PropCheck):
                 n2["stack_exiting_running"] = True
                 n2["exit_by"] = rng.choice(["fallthrough", "exception"])
                 out.append({"k": "tree", "node": n2})
+        # generator-based managers that reach their yield through a delegation chain longer than any loop guard of the traversal
+        for yf, nbody in ((105, 1), (130, 2), (101, 0)):
+            out.append({"k": "tree", "node": {"kind": "gcm", "async": False, "yield_from": yf,
+                                              "body": [{"kind": "plain", "async": False, "falsy": False, "style": 0}
+                                                       for _ in range(nbody)]}})
         return out
 
     def run_real(self, case):
